@@ -547,8 +547,8 @@ class Runner:
         if self._asynchronous and self._disowned:
             err = "Cannot give both 'asynchronous' and 'disown' at the same time!"  # noqa
             raise ValueError(err)
-        # If hide was True, turn off echoing
-        if opts["hide"] is True:
+        # If hide was True (or its documented synonym 'both'), turn off echoing
+        if opts["hide"] is True or opts["hide"] == "both":
             opts["echo"] = False
         # Conversely, ensure echoing is always on when dry-running
         if opts["dry"] is True:
